@@ -93,6 +93,27 @@ fn recv_req(sock: RawFd) -> Option<String> {
     }
 }
 
+/// After a process was let past its `open` of the guard file while another process holds the guard: does it
+/// really block in flock(2)? Decided by observation, not assumed — either its next request arrives (the guard
+/// did not stop it: the code under test does not hold the lock it thinks it holds) or the kernel reports it
+/// inside syscall 73 (flock).
+fn blocks_in_flock(p: &mut Proc) -> bool {
+    let pid = p.child.id();
+    for _ in 0..30_000 {
+        let mut pfd = libc::pollfd { fd: p.sock, events: libc::POLLIN, revents: 0 };
+        let n = unsafe { libc::poll(&mut pfd, 1, 2) };
+        if n > 0 {
+            return false;
+        }
+        if let Ok(s) = std::fs::read_to_string(format!("/proc/{pid}/syscall")) {
+            if s.starts_with("73 ") {
+                return true;
+            }
+        }
+    }
+    harness_error("C25: a process neither blocked in flock nor sent its next request within 60 s")
+}
+
 pub enum Sched<'a> {
     /// seeded policy
     Seeded { rng: Rng, policy: Policy, kills: Vec<KillPlan> },
@@ -330,7 +351,7 @@ pub fn run_once(w: &Workload, slot: &Path, mut sched: Sched) -> RunResult {
             p.alive = false;
             p.exited = true;
             write_live(&procs);
-        } else if opens_guard && guard_holder.is_some() && guard_holder != Some(pi) {
+        } else if opens_guard && guard_holder.is_some() && guard_holder != Some(pi) && blocks_in_flock(p) {
             // it blocks in flock() now: nothing to wait for until the holder lets go
             guard_waiter = Some(pi);
         } else {
